@@ -193,6 +193,8 @@ def run(ctx):
     ctx.extra["texts"] = len(valid)
     import enum_cases
     enum_cases.stream(ctx, st, "nN", quick, "c06")
+    import schema_scan_cases
+    schema_scan_cases.stream(ctx, st, "sS", quick, "c06")
     ctx.extra["size_histogram"] = {str(k): sum(1 for t in valid if len(t) // 50 == k) for k in range(0, 12)}
     jc.proof_tail(ctx, st, ["C06_*"])
 
